@@ -548,7 +548,15 @@ func HarnessC16Formats() {
 	p.Name, p.In = "q", "query"
 	var v interface{}
 	var want bool
-	switch verifChoose(5) {
+	switch verifChoose(7) {
+	case 5:
+		p.Type, p.Format = "integer", "int32"
+		x := verifUint32()
+		v, want = x, x < 1<<31
+	case 6:
+		p.Type, p.Format = "integer", "int32"
+		x := verifUint16()
+		v, want = x, true
 	case 0:
 		p.Type, p.Format = "integer", "int32"
 		x := verifInt64()
